@@ -13,6 +13,7 @@ import BV.C12.Lemmas4
 import BV.C12.Lemmas5
 import BV.C12.Lemmas6
 import BV.C12.Compose3
+import BV.C12.Coinbase
 import BV.Generated.C12
 namespace BV.C12
 open Spec
@@ -261,6 +262,29 @@ theorem bip68_is_c13 (e : Env) (t : Tx) (hcs : e.csv = true) (hv : ¬ t.version 
       BV.C13.Spec.locksSatisfied (BV.C13.Spec.sequenceLocks true (t.ins.map (seqInputOf e))).1
         (BV.C13.Spec.sequenceLocks true (t.ins.map (seqInputOf e))).2 e.nextHeight e.mtp = true :=
   seqLocksOk_c13 e t hcs hv hcb
+
+/-- C13 (script builder, `ExtractCoinbaseHeight`): the coinbase script the generator writes —
+`AddInt64(height).AddInt64(int64(extraNonce)).AddData(flags)` — carries the BIP34 height consensus
+reads back, and its length is within the consensus bounds 2..100, for every height below 2^31, EVERY
+uint64 extra nonce (as int64, including the minimum, cf. F-C12-c) and any flags of at most 75 bytes: the
+`bip34Height` and `cbScriptLen` rules hold for the generated coinbase at creation and after every
+`UpdateExtraNonce`. -/
+theorem coinbase_script_ok (height : Nat) (hh : height < 2 ^ 31) (nonce : Int) (hn : nonce.natAbs < 256 ^ 8)
+    (flags : BV.C13.Spec.Bytes) (hf : flags.length ≤ 75) :
+    BV.C13.extractCoinbaseHeight (coinbaseScript height nonce flags) = BV.C13.HeightResult.ok (height : Int)
+    ∧ 2 ≤ (coinbaseScript height nonce flags).length
+    ∧ (coinbaseScript height nonce flags).length ≤ 100 :=
+  ⟨coinbaseScript_height height hh nonce flags, coinbaseScript_min_len height nonce flags,
+   coinbaseScript_max_len height hh nonce hn flags hf⟩
+
+/-- Inputs are values: however often the generator is called with the same inputs, every call returns
+the same template (the correspondence op `reuse` checks this of the implementation, sequentially and
+concurrently, and that the caller's objects are unchanged). -/
+theorem repeated_generation_agrees (e : Env) (pool : List Tx) (fuel n : Nat) :
+    (List.replicate n (newBlockTemplate ops e pool fuel)).all (fun r => r = newBlockTemplate ops e pool fuel) = true := by
+  rw [List.all_eq_true]
+  intro r hr
+  simp [List.eq_of_mem_replicate hr]
 
 /-! ## F-C12-a: why the clock matters -/
 
